@@ -15,6 +15,7 @@ interpreter `run` (memoised, every instruction once) computes exactly it.
 import ForML.Lemmas.C02Dask
 import ForML.Lemmas.C02PyExpr
 import ForML.Lemmas.C02PyFull
+import ForML.Lemmas.C02PyOnce
 import ForML.Lemmas.C02Builder
 import ForML.Lemmas.C02Token
 import ForML.Model.PyFuncLegacy
@@ -179,6 +180,76 @@ example : (expression none exHeadFanout).toOption.isSome = true := by rfl
 example : (expression none exShortFirst).toOption.isSome = true := by rfl
 example : (expression exAssets exServing).toOption.isSome = true := by rfl
 example : exHeadFanout.heads = [.uid 0] ∧ exShortFirst.heads = [.uid 0] ∧ exServing.heads = [.uid 0] := by decide
+
+/-! ### which instructions a request executes (single-function runner) -/
+
+/-- the instructions of a table that a request has to execute: functors and getters (loaders are read once, when
+the expression is built, and condensed into the prepared actors) -/
+def Table.requestNodes (t : Table) : List Key :=
+  (t.filter fun s => match s.instr with | .functor _ _ _ => true | .getter _ => true | _ => false).map (·.id)
+
+/-- **Full statement (open: stated, neither proved nor refuted)**: on every valid apply-mode table every request
+executes every functor / getter of the table exactly once and nothing else — like the direct dependency-ordered
+evaluation (`C02_run`). On the real code this is observed by the harness (execution nonces, signature
+`pyfunc:execution-count`); the model's instrumented evaluator `evalT` is compared with those observations. -/
+def C02_pyfunc_once_full : Prop :=
+  ∀ (A : Option Assets) (t : Table) (r : Key → Nat), t.ranked r = true → t.applyMode A = true →
+    ∀ U, expression A t = .ok U → ∀ x k, (U.executed x).count k = if k ∈ t.requestNodes then 1 else 0
+
+/-- **The instrumented evaluator is the evaluator**: erasing the execution trace of `evalT` gives `eval` from every
+queue state, so `Term.run` (and with it `C02_pyfunc`, `C02_pyfunc_partial`) speaks about the very evaluation whose
+executions are listed. -/
+theorem C02_pyfunc_trace_erasure (x : Val) (U : Term) (q : Queues) :
+    ((evalT x U q).1, (evalT x U q).2.1) = eval x U q ∧ U.run x = (evalT x U []).1 := by
+  refine ⟨evalT_erase x U q, ?_⟩
+  have := evalT_erase x U []
+  simp only [Term.run, ← this]
+
+/-- **What is proved about executions, for every term and every input**: (1) a request executes nothing but nodes
+of the term — from whatever queue state; (2) a term without replica cells (no shared result) executes each of its
+nodes exactly once, arguments before consumers (post-order), and leaves the queues as they were; (3) of the
+replica cells of a fork the one evaluated while the queue is empty executes the shared term and queues its value
+once per remaining consumer, a cell that finds a queued value executes nothing. -/
+theorem C02_pyfunc_once_partial (x : Val) (U : Term) :
+    (∀ q k, k ∈ (evalT x U q).2.2 → k ∈ U.nodes) ∧
+    (U.plain = true → U.executed x = U.nodes ∧ ∀ q, (evalT x U q).2.2 = U.nodes ∧ (evalT x U q).2.1 = q) ∧
+    (∀ k n q, q.get k = [] →
+      (evalT x (.replica k U n) q).2.2 = (evalT x U q).2.2 ∧
+      (evalT x (.replica k U n) q).2.1.get k = (evalT x U q).2.1.get k ++ List.replicate n (evalT x U q).1) ∧
+    (∀ k n q v d, q.get k = v :: d → evalT x (.replica k U n) q = (v, q.set k d, [])) :=
+  ⟨evalT_sound x U, fun h => ⟨(evalT_plain x U [] h).1, fun q => evalT_plain x U q h⟩,
+   fun k n q h => evalT_replica_first x k U n q h, fun k n q v d h => evalT_replica_served x k U n q v d h⟩
+
+/-- **Every node at least once, nothing else**: if all replica cells of one fork wrap one shared term (`cellsOk`:
+the cell named `k` wraps a term with nodes `C k` — what `Branch.fork` builds), a request, started from empty queues,
+executes exactly the *set* of nodes of the term: no node is skipped because a consumer was served from a queue (a
+queue holds values only after the shared term ran in this request), no other node runs. What separates this from
+`C02_pyfunc_once_full` is the multiplicity on terms with replica cells. -/
+theorem C02_pyfunc_executes_all (C : Key → List Key) (x : Val) (U : Term) (h : U.cellsOk C = true) (k : Key) :
+    k ∈ U.executed x ↔ k ∈ U.nodes :=
+  executed_iff_node C x U h k
+
+/-- non-vacuity of `C02_pyfunc_executes_all`: the forks of the example expressions satisfy `cellsOk` -/
+example : (expression none exHeadFanout).toOption.map
+    (·.cellsOk fun k => if k = .uid 0 then [.uid 0] else []) = some true := by decide
+example : (expression none exShortFirst).toOption.map
+    (·.cellsOk fun k => if k = .uid 1 then [.uid 0, .uid 1] else []) = some true := by decide
+
+example : (expression exAssets exServing).toOption.map (·.uniform) = some true := by decide
+
+/-- instances of `C02_pyfunc_once_full` (tests of the model, non-vacuity): fan-out at the head, the shorter branch
+of a shared result first, shared loader + getters + stateful head — every functor / getter once per request, no
+loader, although `exHeadFanout`'s head and `exShortFirst`'s node 1 occur in two replica cells each -/
+example : (expression none exHeadFanout).toOption.map (·.executed (.input 0)) =
+    some [.uid 0, .uid 1, .uid 2, .uid 3] := by rfl
+example : (expression none exShortFirst).toOption.map (·.executed (.input 0)) =
+    some [.uid 0, .uid 1, .uid 2, .uid 3] := by rfl
+example : (expression none exHeadFanout).toOption.map (·.nodes) =
+    some [.uid 0, .uid 1, .uid 0, .uid 2, .uid 3] := by rfl
+example : ((expression exAssets exServing).toOption.map fun U =>
+    exServing.requestNodes.map fun k => (U.executed (.input 0)).count k) = some [1, 1, 1, 1, 1, 1] ∧
+    ((expression exAssets exServing).toOption.map fun U =>
+      ((U.executed (.input 0)).length, (U.executed (.input 0)).count (.loader 7))) = some (6, 0) := by decide
 
 /-! ### the two ways a state preset reaches the actor -/
 
